@@ -206,6 +206,20 @@ def build(case):
                 res = "SelectorError"
             except Exception as e:  # noqa
                 res = type(e).__name__
+            # a refused activation must leave the function probe-able: follow up with a name Python knows
+            followup = None
+            if res == "SelectorError":
+                valid = next((nm for nm in NAMES + ["d"] if oracle(src, nm) in ("argument", "body", "closure", "external")
+                              and not (oracle(src, nm) == "body" and any(
+                                  FORMS[fi][1].startswith(("def {N}", "class {N}")) and NAMES[ni] == nm for fi, ni in slots))), None)
+                if valid is not None:
+                    try:
+                        pr2 = probing(f"f > {valid}", env={"f": f})
+                        pr2.__enter__()
+                        pr2.__exit__(None, None, None)
+                        followup = (valid, "activated")
+                    except Exception as e:  # noqa
+                        followup = (valid, type(e).__name__)
             forms = sorted({FORMS[fi][1].replace("{N}", "N").split("\n")[0] for fi, ni in slots if NAMES[ni] == probed and fi})
             # the form that makes the name what Python says it is (for the fingerprint; no solver values)
             binder = next((x for x in forms if x.startswith(("def N", "class N"))), None) or \
@@ -214,6 +228,9 @@ def build(case):
         if twin:
             require(not (want == "body" and res == "activated"), "vacuity twin", {"fp": "twin"})
             return
+        require(followup is None or followup[1] == "activated",
+                f"after `f > {probed}` was refused, the valid `f > {followup and followup[0]}` is refused too on the same function: "
+                f"{followup and followup[1]}", {"fp": f"C10:refusal-sticky:{followup and followup[1]}"})
         if probed.startswith("#"):
             if probed == "#value":
                 require(res == "activated", f"the documented meta-variable #value was refused: {res}", {"fp": "C10:hashvar:valid-refused"})
